@@ -7,15 +7,19 @@ to `WireLaw`: what the protocol stacks (connect-go, grpc-go, net/http — outsid
 assumed to do to metadata; the end-to-end half of the correspondence checks that on every run.
 -/
 import ConfModel.Lemmas.Echo
+import ConfModel.Lemmas.EchoLoad
 namespace ConfModel.Props.C02
 open ConfModel.Echo
 
 /-- What the transport is assumed to preserve for this test case: every request header the
 test sets reaches the server (`seen`), every response header / trailer the definition sets
 reaches the client — each possibly under another letter case, joined with commas, or among
-extra entries (`subsumed`), and on a unary / client-stream error possibly as one bag. -/
+extra entries (`subsumed`), and on a unary / client-stream error possibly as one bag.  Connect
+GET: whenever the test asks for GET and the server's library presents query parameters at all,
+`encoding=<codec>` and `connect=v1` are among them (what else is there — "message", "base64",
+"compression" — is the client's choice). -/
 def WireLaw (tc : TC) (w : Wire) : Bool :=
-  subsumed tc.reqHdrs w.seen &&
+  subsumed tc.reqHdrs w.seen && queryAgree (getQuery tc) w.query &&
   (match tc.udef with
    | some d => subsumed d.hdrs (w.hdrs d.hdrs) && subsumed d.trls (w.trls d.trls) &&
                subsumed (mergeHeaders d.hdrs d.trls) (w.merged d.hdrs d.trls)
@@ -37,18 +41,19 @@ def DetailsOpaque (tc : TC) : Bool :=
 /-- unary and client-stream: any number of requests (client stream: including none), data or
 error or nothing, whichever way error metadata is delivered -/
 theorem unary_agrees (tc : TC) (w : Wire) (m : Bool) (hst : tc.st = .unary ∨ tc.st = .clientStream)
+    (hm : tc.method ≠ .unimplemented)
     (hw : WireLaw tc w = true) (hd : DetailsOpaque tc = true) :
     agree tc.st (expected tc) (actual tc w m) = true := by
   have hexp : expected tc = expectedUnary tc := by rcases hst with h | h <;> simp [expected, h]
-  have hact : actual tc w m = actualUnary tc w m := by rcases hst with h | h <;> simp [actual, h]
+  have hact : actual tc w m = actualUnary tc w m := by rcases hst with h | h <;> simp [actual, h, hm]
   have hstb : (tc.st == ST.unary || tc.st == ST.clientStream) = true := by rcases hst with h | h <;> simp [h]
   rw [hexp, hact]
   simp only [WireLaw, Bool.and_eq_true] at hw
-  obtain ⟨⟨hseen, hu⟩, _⟩ := hw
+  obtain ⟨⟨⟨hseen, hq⟩, hu⟩, _⟩ := hw
   cases hdef : (if tc.reqs.isEmpty then none else tc.udef) with
   | none =>
     simp only [expectedUnary, actualUnary, hdef]
-    simp [agree, errAgree, payloadsAgreeFrom, infoAgree, hseen, subsumed_nil]
+    simp [agree, errAgree, payloadsAgreeFrom, infoAgree, hseen, hq, subsumed_nil]
   | some d =>
     have hud : tc.udef = some d := by
       by_cases he : tc.reqs.isEmpty = true <;> simp [he] at hdef; exact hdef
@@ -57,14 +62,14 @@ theorem unary_agrees (tc : TC) (w : Wire) (m : Bool) (hst : tc.st = .unary ∨ t
     cases hr : d.resp with
     | none =>
       simp only [expectedUnary, actualUnary, hdef, hr]
-      simp [agree, errAgree, payloadsAgreeFrom, infoAgree, hseen, hh, ht]
+      simp [agree, errAgree, payloadsAgreeFrom, infoAgree, hseen, hq, hh, ht]
     | data b =>
       simp only [expectedUnary, actualUnary, hdef, hr]
-      simp [agree, errAgree, payloadsAgreeFrom, infoAgree, hseen, hh, ht]
+      simp [agree, errAgree, payloadsAgreeFrom, infoAgree, hseen, hq, hh, ht]
     | error e =>
       have hop : opaqueOnly e.details = true := by
         simp only [DetailsOpaque, hud, hr, Bool.and_eq_true] at hd; exact hd.1
-      have he := errAgree_addInfo e hop tc.reqHdrs w.seen tc.reqs hseen
+      have he := errAgree_addInfo e hop tc.reqHdrs w.seen tc.reqs (getQuery tc) w.query hseen hq
       simp only [expectedUnary, actualUnary, hdef, hr]
       cases m
       · simp [agree, he, payloadsAgreeFrom, hstb, hh, ht]
@@ -74,17 +79,18 @@ theorem unary_agrees (tc : TC) (w : Wire) (m : Bool) (hst : tc.st = .unary ∨ t
 responses in any order relation (`M < N`, `M = N`, `M > N`), with or without a final error -/
 theorem stream_agrees (tc : TC) (w : Wire) (m : Bool)
     (hst : tc.st = .serverStream ∨ tc.st = .halfDuplex ∨ tc.st = .fullDuplex)
+    (hm : tc.method ≠ .unimplemented)
     (hwf : WellFormed tc = true) (hw : WireLaw tc w = true) (hd : DetailsOpaque tc = true)
     (hf : isF07 tc = false) :
     agree tc.st (expected tc) (actual tc w m) = true := by
   have hexp : expected tc = expectedStream tc := by rcases hst with h | h | h <;> simp [expected, h]
-  have hact : actual tc w m = actualStream tc w := by rcases hst with h | h | h <;> simp [actual, h]
+  have hact : actual tc w m = actualStream tc w := by rcases hst with h | h | h <;> simp [actual, h, hm]
   have hstb : (tc.st == ST.unary || tc.st == ST.clientStream) = false := by rcases hst with h | h | h <;> simp [h]
   rw [hexp, hact]
   simp only [WireLaw, Bool.and_eq_true] at hw
-  obtain ⟨⟨hseen, _⟩, hs⟩ := hw
+  obtain ⟨⟨⟨hseen, _⟩, _⟩, hs⟩ := hw
   have hfd : tc.fdFlag = (tc.st == .fullDuplex) := by
-    simp only [WellFormed, Bool.and_eq_true, beq_iff_eq] at hwf; exact hwf.2
+    simp only [WellFormed, Bool.and_eq_true, beq_iff_eq] at hwf; exact hwf.1.2
   unfold expectedStream actualStream
   cases hdef : (if tc.reqs.isEmpty then none else tc.sdef) with
   | none => simp [agree, errAgree, payloadsAgreeFrom, subsumed_nil]
@@ -99,11 +105,11 @@ theorem stream_agrees (tc : TC) (w : Wire) (m : Bool)
     by_cases hfull : tc.st = .fullDuplex
     · -- full duplex
       have hflag : tc.fdFlag = true := by rw [hfd]; simp [hfull]
-      have hp := payloads_pingPong tc hfull w.seen hseen d.data 0 tc.reqs (by simp)
+      have hp := payloads_pingPong tc hfull w.seen w.query hseen d.data 0 tc.reqs (by simp)
       simp only [hflag, if_true, hfull]
       have herr : errAgree
-          (if d.data.isEmpty then d.err.map (·.addDetail (.info ⟨tc.reqHdrs, tc.reqs⟩)) else d.err)
-          (if d.data.isEmpty then d.err.map (·.addDetail (.info ⟨w.seen, tc.reqs.take 1⟩)) else d.err) = true := by
+          (if d.data.isEmpty then d.err.map (·.addDetail (.info ⟨tc.reqHdrs, tc.reqs, []⟩)) else d.err)
+          (if d.data.isEmpty then d.err.map (·.addDetail (.info ⟨w.seen, tc.reqs.take 1, w.query⟩)) else d.err) = true := by
         by_cases hde : d.data.isEmpty = true
         · simp only [hde, if_true]
           cases hx : d.err with
@@ -116,22 +122,22 @@ theorem stream_agrees (tc : TC) (w : Wire) (m : Bool)
               omega
             have htake : tc.reqs.take 1 = tc.reqs := List.take_of_length_le (by omega)
             rw [htake]
-            exact errAgree_addInfo x (hop x hx) _ _ _ hseen
+            exact errAgree_addInfo x (hop x hx) _ _ _ _ _ hseen (queryAgree_nil_left _)
         · simp only [hde]; exact errAgree_refl _ hop
       simp only [agree, herr, hp, Bool.true_and]
       simp [hh, ht]
     · -- server stream / half duplex
       have hflag : tc.fdFlag = false := by rw [hfd]; simp [hfull]
-      have hp := payloads_flush tc hfull w.seen hseen d.data 0
+      have hp := payloads_flush tc hfull w.seen w.query hseen d.data 0
       simp only [hflag, Bool.false_eq_true, if_false, hfull]
       have herr : errAgree
-          (if d.data.isEmpty then d.err.map (·.addDetail (.info ⟨tc.reqHdrs, tc.reqs⟩)) else d.err)
-          (if d.data.isEmpty then d.err.map (·.addDetail (.info ⟨w.seen, tc.reqs⟩)) else d.err) = true := by
+          (if d.data.isEmpty then d.err.map (·.addDetail (.info ⟨tc.reqHdrs, tc.reqs, []⟩)) else d.err)
+          (if d.data.isEmpty then d.err.map (·.addDetail (.info ⟨w.seen, tc.reqs, w.query⟩)) else d.err) = true := by
         by_cases hde : d.data.isEmpty = true
         · simp only [hde, if_true]
           cases hx : d.err with
           | none => rfl
-          | some x => exact errAgree_addInfo x (hop x hx) _ _ _ hseen
+          | some x => exact errAgree_addInfo x (hop x hx) _ _ _ _ _ hseen (queryAgree_nil_left _)
         · simp only [hde]; exact errAgree_refl _ hop
       simp only [agree, herr, hp, Bool.true_and]
       have : (tc.st == ST.unary || tc.st == ST.clientStream) = false := hstb
@@ -146,14 +152,211 @@ test pins the generator's behaviour, so it is recorded, not repaired).  Proved: 
 every case outside that shape (`isF07 tc = false`). -/
 theorem expected_agrees_partial (tc : TC) (w : Wire) (m : Bool)
     (hwf : WellFormed tc = true) (hw : WireLaw tc w = true) (hd : DetailsOpaque tc = true)
-    (hf : isF07 tc = false) :
+    (hf : isF07 tc = false) (hm : tc.method ≠ .unimplemented) :
     agree tc.st (expected tc) (actual tc w m) = true := by
   cases hst : tc.st with
-  | unary => rw [← hst]; exact unary_agrees tc w m (Or.inl hst) hw hd
-  | clientStream => rw [← hst]; exact unary_agrees tc w m (Or.inr hst) hw hd
-  | serverStream => rw [← hst]; exact stream_agrees tc w m (Or.inl hst) hwf hw hd hf
-  | halfDuplex => rw [← hst]; exact stream_agrees tc w m (Or.inr (Or.inl hst)) hwf hw hd hf
-  | fullDuplex => rw [← hst]; exact stream_agrees tc w m (Or.inr (Or.inr hst)) hwf hw hd hf
+  | unary => rw [← hst]; exact unary_agrees tc w m (Or.inl hst) hm hw hd
+  | clientStream => rw [← hst]; exact unary_agrees tc w m (Or.inr hst) hm hw hd
+  | serverStream => rw [← hst]; exact stream_agrees tc w m (Or.inl hst) hm hwf hw hd hf
+  | halfDuplex => rw [← hst]; exact stream_agrees tc w m (Or.inr (Or.inl hst)) hm hwf hw hd hf
+  | fullDuplex => rw [← hst]; exact stream_agrees tc w m (Or.inr (Or.inr hst)) hm hwf hw hd hf
+
+/-- **Connect GET** (corollary of `unary_agrees`, stated explicitly): a unary call of the
+idempotent method with `use_get_http_method`, under either codec.  Whatever the client puts into
+the query string besides — the message, `base64`, `compression` — the expectation, which lists
+`encoding=<codec>` and `connect=v1` only, agrees with what the reference server echoes, whichever
+way the response is defined (data, nothing, error with details) and however error metadata is
+delivered. -/
+theorem expected_agrees_get (tc : TC) (w : Wire) (m : Bool) (hst : tc.st = .unary) (hg : tc.get = true)
+    (hm : tc.method = .idempotent) (hw : WireLaw tc w = true) (hd : DetailsOpaque tc = true) :
+    agree .unary (expected tc) (actual tc w m) = true ∧
+    getQuery tc = [⟨"encoding", [tc.codec.encoding]⟩, ⟨"connect", ["v1"]⟩] := by
+  refine ⟨?_, by simp [getQuery, hg]⟩
+  have h := unary_agrees tc w m (Or.inl hst) (by simp [hm]) hw hd
+  rwa [hst] at h
+
+/-- Which request infos of a derived expectation list query parameters: for unary and
+client-stream cases every one of them (the payload's, or the detail appended to the error) lists
+exactly `getQuery` — `encoding` and `connect` for a GET test, nothing otherwise … -/
+theorem expected_unary_query (tc : TC) (hst : tc.st = .unary ∨ tc.st = .clientStream)
+    (hd : DetailsOpaque tc = true) :
+    ∀ ri ∈ infosOf (expected tc), ri.query = getQuery tc := by
+  have hexp : expected tc = expectedUnary tc := by rcases hst with h | h <;> simp [expected, h]
+  rw [hexp]
+  intro ri hri
+  cases hdef : (if tc.reqs.isEmpty then none else tc.udef) with
+  | none =>
+    have hres : expectedUnary tc = ⟨[], [], [⟨"", some ⟨tc.reqHdrs, tc.reqs, getQuery tc⟩⟩], none⟩ := by
+      simp only [expectedUnary, hdef]
+    rw [hres] at hri
+    simp [infosOf] at hri; simp [hri]
+  | some d =>
+    have hud : tc.udef = some d := by
+      by_cases he : tc.reqs.isEmpty = true <;> simp [he] at hdef; exact hdef
+    cases hr : d.resp with
+    | none =>
+      have hres : expectedUnary tc = ⟨d.hdrs, d.trls, [⟨"", some ⟨tc.reqHdrs, tc.reqs, getQuery tc⟩⟩], none⟩ := by
+        simp only [expectedUnary, hdef, hr]
+      rw [hres] at hri
+      simp [infosOf] at hri; simp [hri]
+    | data b =>
+      have hres : expectedUnary tc = ⟨d.hdrs, d.trls, [⟨b, some ⟨tc.reqHdrs, tc.reqs, getQuery tc⟩⟩], none⟩ := by
+        simp only [expectedUnary, hdef, hr]
+      rw [hres] at hri
+      simp [infosOf] at hri; simp [hri]
+    | error e =>
+      have hop : opaqueOnly e.details = true := by
+        simp only [DetailsOpaque, hud, hr, Bool.and_eq_true] at hd; exact hd.1
+      have hres : expectedUnary tc = ⟨d.hdrs, d.trls, [], some (e.addDetail (.info ⟨tc.reqHdrs, tc.reqs, getQuery tc⟩))⟩ := by
+        simp only [expectedUnary, hdef, hr]
+      rw [hres] at hri
+      simp only [infosOf, Err.addDetail, List.filterMap_nil, List.nil_append,
+        detailInfos_append_info _ hop, List.mem_singleton] at hri
+      simp [hri]
+
+/-- … and for server, half- and full-duplex streams none does (`use_get_http_method` is not
+looked at there) -/
+theorem expected_stream_no_query (tc : TC) (hst : tc.st = .serverStream ∨ tc.st = .halfDuplex ∨ tc.st = .fullDuplex)
+    (hd : DetailsOpaque tc = true) :
+    ∀ ri ∈ infosOf (expected tc), ri.query = [] := by
+  have hexp : expected tc = expectedStream tc := by rcases hst with h | h | h <;> simp [expected, h]
+  rw [hexp]
+  have hpay : ∀ (data : List String) (idx : Nat), ∀ ri ∈ (expectedStreamPayloads tc idx data).filterMap (·.info), ri.query = [] := by
+    intro data
+    induction data with
+    | nil => intro idx ri h; simp [expectedStreamPayloads] at h
+    | cons b bs ih =>
+      intro idx ri h
+      simp only [expectedStreamPayloads, List.filterMap_cons] at h
+      split at h
+      · exact ih _ ri h
+      · next x hx =>
+        rcases List.mem_cons.mp h with rfl | h'
+        · revert hx
+          split
+          · split <;> simp <;> intro h <;> simp [← h]
+          · split <;> simp <;> intro h <;> simp [← h]
+        · exact ih _ ri h'
+  intro ri hri
+  cases hdef : (if tc.reqs.isEmpty then none else tc.sdef) with
+  | none =>
+    have hres : expectedStream tc = ⟨[], [], [], none⟩ := by simp only [expectedStream, hdef]
+    rw [hres] at hri
+    simp [infosOf] at hri
+  | some d =>
+    have hsd : tc.sdef = some d := by
+      by_cases he : tc.reqs.isEmpty = true <;> simp [he] at hdef; exact hdef
+    have hop : ∀ x, d.err = some x → opaqueOnly x.details = true := by
+      intro x hx
+      simp only [DetailsOpaque, hsd, hx, Bool.and_eq_true] at hd; exact hd.2
+    have hres : expectedStream tc = ⟨d.hdrs, d.trls, expectedStreamPayloads tc 0 d.data,
+        if d.data.isEmpty then d.err.map (·.addDetail (.info ⟨tc.reqHdrs, tc.reqs, []⟩)) else d.err⟩ := by
+      simp only [expectedStream, hdef]
+    rw [hres] at hri
+    simp only [infosOf, List.mem_append] at hri
+    rcases hri with h | h
+    · exact hpay _ _ ri h
+    · cases hx : d.err with
+      | none => simp [hx] at h
+      | some x =>
+        have hox := hop x hx
+        by_cases hde : d.data.isEmpty = true
+        · simp only [hx, hde, if_true, Option.map_some, Err.addDetail, detailInfos_append_info _ hox,
+            List.mem_singleton] at h
+          simp [h]
+        · have hde' : d.data.isEmpty = false := by simpa using hde
+          simp only [hx, hde', Bool.false_eq_true, if_false] at h
+          rw [detailInfos_opaque _ hox] at h
+          simp at h
+
+/-- The leniency of the query-parameter comparison is not a blank cheque: when the server does echo
+query parameters of a GET call (`w.query ≠ []`) and they do not contain what the expectation lists
+(a wrong `encoding`, a missing `connect=v1`), the case FAILS — for a response with data or without
+a definition alike.  (So a generator that wrote another codec name into the expectation, or a
+server that dropped or renamed a parameter, cannot go unnoticed behind the "both sides non-empty"
+rule.) -/
+theorem get_query_sharp (tc : TC) (w : Wire) (m : Bool) (hst : tc.st = .unary) (hg : tc.get = true)
+    (hm : tc.method ≠ .unimplemented)
+    (hne : w.query ≠ []) (hbad : subsumed (getQuery tc) w.query = false)
+    (hnoerr : ∀ d e, tc.udef = some d → d.resp ≠ .error e) :
+    agree .unary (expected tc) (actual tc w m) = false := by
+  have hexp : expected tc = expectedUnary tc := by simp [expected, hst]
+  have hact : actual tc w m = actualUnary tc w m := by simp [actual, hst, hm]
+  rw [hexp, hact]
+  have hq : queryAgree (getQuery tc) w.query = false := by
+    have h1 : (getQuery tc).isEmpty = false := by simp [getQuery, hg]
+    have h2 : w.query.isEmpty = false := by cases hw : w.query <;> simp_all
+    simp [queryAgree, h1, h2, hbad]
+  cases hdef : (if tc.reqs.isEmpty then none else tc.udef) with
+  | none =>
+    simp only [expectedUnary, actualUnary, hdef]
+    simp [agree, payloadsAgreeFrom, infoAgree, hq]
+  | some d =>
+    have hud : tc.udef = some d := by
+      by_cases he : tc.reqs.isEmpty = true <;> simp [he] at hdef; exact hdef
+    cases hr : d.resp with
+    | none =>
+      simp only [expectedUnary, actualUnary, hdef, hr]
+      simp [agree, payloadsAgreeFrom, infoAgree, hq]
+    | data b =>
+      simp only [expectedUnary, actualUnary, hdef, hr]
+      simp [agree, payloadsAgreeFrom, infoAgree, hq]
+    | error e => exact absurd hr (hnoerr d e hud)
+
+/-- **The unimplemented method.**  Nothing can be derived for it (`populate_rejects_iff`); with the
+expectation the corpus gives — an error with code `unimplemented` (12), no message, no details, no
+metadata — the case passes against either server's wording of the error, under any stream type's
+leniency and either delivery of error metadata. -/
+theorem unimplemented_agrees (tc : TC) (w : Wire) (m : Bool) (hm : tc.method = .unimplemented)
+    (hex : tc.explicit = some ⟨[], [], [], some ⟨12, none, []⟩⟩) :
+    populate tc = some ⟨[], [], [], some ⟨12, none, []⟩⟩ ∧
+    agree tc.st ⟨[], [], [], some ⟨12, none, []⟩⟩ (actual tc w m) = true := by
+  refine ⟨by simp [populate, hex], ?_⟩
+  simp only [actual, hm, if_true, actualUnimpl]
+  cases m <;> simp [agree, errAgree, detailsAgree, payloadsAgreeFrom, subsumed_nil, mergeHeaders] <;>
+    cases tc.st <;> simp [subsumed_nil, subsumed]
+
+/-- an expected response given by the suite is left alone, whatever the request looks like -/
+theorem populate_explicit (tc : TC) (e : Result) (h : tc.explicit = some e) : populate tc = some e := by
+  simp [populate, h]
+
+/-- **Which cases the generator rejects** (in this fragment): exactly those that give no expected
+response themselves and whose first request message carries no response definition — the
+`Unimplemented` method with a request message. -/
+theorem populate_rejects_iff (tc : TC) :
+    populate tc = none ↔ (tc.explicit = none ∧ tc.method = .unimplemented ∧ tc.reqs ≠ []) := by
+  unfold populate derivable
+  cases hex : tc.explicit with
+  | some e => simp
+  | none =>
+    cases hm : tc.method <;> cases hr : tc.reqs <;> simp
+
+/-- Headline in terms of `populate` (what the library stores): for a well-formed case that gives no
+expected response itself, whenever the generator produces an expectation it agrees with the peers
+(outside the F07 shape) — in particular a well-formed case of the unimplemented method is never
+silently given a derived expectation. -/
+theorem populated_agrees_partial (tc : TC) (w : Wire) (m : Bool) (e : Result)
+    (hwf : WellFormed tc = true) (hw : WireLaw tc w = true) (hd : DetailsOpaque tc = true)
+    (hf : isF07 tc = false) (hex : tc.explicit = none) (hp : populate tc = some e) :
+    agree tc.st e (actual tc w m) = true := by
+  have hm : tc.method ≠ .unimplemented := by
+    intro hm
+    have hst : tc.st = .unary := by
+      simp only [WellFormed, Bool.and_eq_true, Bool.or_eq_true, beq_iff_eq] at hwf
+      rcases hwf.2 with h | h
+      · rw [hm] at h; cases h
+      · exact h
+    have hlen : tc.reqs.length = 1 := by
+      simp only [WellFormed, hst, Bool.and_eq_true, beq_iff_eq] at hwf; exact hwf.1.1
+    have : populate tc = none := (populate_rejects_iff tc).2 ⟨hex, hm, by intro h; simp [h] at hlen⟩
+    rw [this] at hp; cases hp
+  have : e = expected tc := by
+    simp only [populate, hex] at hp
+    split at hp
+    · exact (Option.some.inj hp).symm
+    · cases hp
+  rw [this]
+  exact expected_agrees_partial tc w m hwf hw hd hf hm
 
 /-- The number of expected payloads is the number of responses defined — the derivation never
 drops or invents a response, whatever the number of requests (the unrepaired generator indexed
@@ -167,16 +370,18 @@ theorem expected_payload_count (tc : TC) (d : StreamDef) (idx : Nat) :
 
 /-- the identity transport obeys `WireLaw` whenever header names are distinct up to case in each
 list (so the law is satisfiable: non-vacuity of `expected_agrees`) -/
-def idWire (tc : TC) : Wire := ⟨tc.reqHdrs, id, id, fun h t => mergeHeaders h t⟩
+def idWire (tc : TC) : Wire := ⟨tc.reqHdrs, id, id, fun h t => mergeHeaders h t, [], "not implemented"⟩
 
 /-! Non-vacuity: concrete well-formed cases meeting every hypothesis. -/
 private def ex1 : TC :=
   { st := .fullDuplex, reqHdrs := [⟨"X-A", ["1", "2"]⟩], reqs := [7, 8], fdFlag := true, udef := none,
+    get := false, codec := .proto, method := .std, explicit := none,
     sdef := some ⟨[⟨"x-h", ["v"]⟩], [⟨"x-t", ["w"]⟩], ["aa", "bb", "cc"], some ⟨13, some "boom", [.other 3]⟩⟩ }
 example : WellFormed ex1 = true ∧ WireLaw ex1 (idWire ex1) = true ∧ DetailsOpaque ex1 = true ∧ isF07 ex1 = false := by decide
-example : (expected ex1).payloads = [⟨"aa", some ⟨[⟨"X-A", ["1", "2"]⟩], [7]⟩⟩, ⟨"bb", some ⟨[], [8]⟩⟩, ⟨"cc", none⟩] := by decide
+example : (expected ex1).payloads = [⟨"aa", some ⟨[⟨"X-A", ["1", "2"]⟩], [7], []⟩⟩, ⟨"bb", some ⟨[], [8], []⟩⟩, ⟨"cc", none⟩] := by decide
 def ex2 : TC :=
   { st := .fullDuplex, reqHdrs := [], reqs := [1, 2, 3], fdFlag := true, udef := none,
+    get := false, codec := .proto, method := .std, explicit := none,
     sdef := some ⟨[], [], [], some ⟨5, none, []⟩⟩ }
 /-- F07: a well-formed case obeying every hypothesis of the headline on which expectation and
 peers disagree (the negation of the full statement, on a concrete witness). -/
@@ -185,7 +390,150 @@ theorem f07_witness :
     agree ex2.st (expected ex2) (actual ex2 (idWire ex2) false) = false := by decide
 private def ex3 : TC :=
   { st := .unary, reqHdrs := [⟨"k", ["a, b"]⟩], reqs := [1], fdFlag := false, sdef := none,
+    get := false, codec := .proto, method := .std, explicit := none,
     udef := some ⟨[⟨"H", ["1"]⟩], [⟨"T", ["2"]⟩], .error ⟨3, some "m", []⟩⟩ }
 example : WellFormed ex3 = true ∧ WireLaw ex3 (idWire ex3) = true ∧ agree .unary (expected ex3) (actual ex3 (idWire ex3) true) = true := by decide
+
+/-! ## Loading: which shapes are rejected
+
+`EchoLoad.load` is the model of `parseTestSuites` followed by `newTestCaseLibrary` (with
+`expandRequestData`, `expandSuite`, `expandCases`, `populateExpectedResponse`) over the part of the
+suite schema C02 quantifies over; `applies` says whether the configuration has cases for a suite at
+all.  That the model returns an error or a library and nothing else is totality; the theorems say
+WHICH inputs get the error. -/
+section Load
+open ConfModel.EchoLoad
+
+/-- **Which shapes are rejected.**  `parseTestSuites` followed by `newTestCaseLibrary` accepts a set
+of suites exactly when it is `Loadable`; everything else is answered with an error (and the model,
+like the code, has no third outcome). -/
+theorem load_accepts_iff (applies : Suite → Bool) (mode : Nat) (ss : List Suite) :
+    load applies mode ss = .ok () ↔ Loadable applies mode ss := by
+  unfold load Loadable
+  cases hp : firstSome (fun s => firstSome (parseCase s) s.cases) ss with
+  | some e =>
+    simp only [reduceCtorEq, false_iff]
+    intro h
+    have : firstSome (fun s => firstSome (parseCase s) s.cases) ss = none :=
+      (firstSome_none_iff _ ss).2 (fun s hs => (firstSome_none_iff _ s.cases).2
+        (fun c hc => (parseCase_none_iff s c).2 (h.1 s hs c hc)))
+    rw [hp] at this; cases this
+  | none =>
+    have hp' : ∀ s ∈ ss, ∀ c ∈ s.cases, ParseOk s c := fun s hs c hc =>
+      (parseCase_none_iff s c).1 ((firstSome_none_iff _ s.cases).1 ((firstSome_none_iff _ ss).1 hp s hs) c hc)
+    simp only []
+    cases hl : libLoop applies mode [] 0 ss with
+    | error e =>
+      simp only [reduceCtorEq, false_iff]
+      rintro ⟨_, h2, h3, h4, _⟩
+      have : LoopOk applies mode [] 0 (0 + (ss.map (contrib applies mode)).sum) ss :=
+        ⟨h2, ⟨h3, fun _ _ => by simp⟩, fun s hs ha => ⟨(h4 s hs ha).1, fun hap =>
+          ⟨fun c hc => ⟨(((h4 s hs ha).2 hap).1 c hc).1, (((h4 s hs ha).2 hap).1 c hc).2.1,
+            fun hr => ((((h4 s hs ha).2 hap).1 c hc).2.2 hr).1⟩, ((h4 s hs ha).2 hap).2⟩⟩, rfl⟩
+      have := (libLoop_ok_iff applies mode ss [] 0 _).2 this
+      rw [hl] at this; cases this
+    | ok n =>
+      obtain ⟨h2, ⟨h3, _⟩, h4, hn⟩ := (libLoop_ok_iff applies mode ss [] 0 n).1 hl
+      simp only [Nat.zero_add] at hn
+      simp only []
+      by_cases h0 : n = 0
+      · simp only [h0, beq_self_eq_true, ↓reduceIte, reduceCtorEq, false_iff]
+        rintro ⟨_, _, _, _, h5⟩
+        have := (sum_contrib_pos applies mode ss).2 h5
+        omega
+      · have h0b : (n == 0) = false := by simpa using h0
+        have h5 := (sum_contrib_pos applies mode ss).1 (by omega)
+        simp only [h0b, Bool.false_eq_true, ↓reduceIte]
+        cases hq : firstSome (fun s => if admitted mode s && applies s then firstSome populateCheck (s.cases.filter runnable) else none) ss with
+        | some e =>
+          simp only [reduceCtorEq, false_iff]
+          rintro ⟨_, _, _, h4', _⟩
+          have : firstSome (fun s => if admitted mode s && applies s then firstSome populateCheck (s.cases.filter runnable) else none) ss = none := by
+            apply (firstSome_none_iff _ ss).2
+            intro s hs
+            cases hb : (admitted mode s && applies s) with
+            | false => simp
+            | true =>
+              simp only [↓reduceIte]
+              simp only [Bool.and_eq_true] at hb
+              apply (firstSome_none_iff _ _).2
+              intro c hc
+              have hcm := List.mem_filter.mp hc
+              exact (populateCheck_none_iff c).2
+                (((((h4' s hs ((admitted_iff mode s).1 hb.1)).2 hb.2).1 c hcm.1).2.2 ((runnable_iff c).1 hcm.2)).2)
+          rw [hq] at this; cases this
+        | none =>
+          simp only [true_iff]
+          refine ⟨hp', h2, h3, fun s hs ha => ⟨(h4 s hs ha).1, fun hap => ⟨fun c hc => ?_, ((h4 s hs ha).2 hap).2⟩⟩, h5⟩
+          obtain ⟨hc1, hc2, hc3⟩ := ((h4 s hs ha).2 hap).1 c hc
+          refine ⟨hc1, hc2, fun hr => ⟨hc3 hr, ?_⟩⟩
+          have hs' := (firstSome_none_iff _ ss).1 hq s hs
+          simp only [(admitted_iff mode s).2 ha, hap, Bool.and_self, ↓reduceIte] at hs'
+          exact (populateCheck_none_iff c).1
+            ((firstSome_none_iff _ _).1 hs' c (List.mem_filter.mpr ⟨hc, (runnable_iff c).2 hr⟩))
+
+/-- the reading the property asks for: a set of suites is REJECTED (some error — which one depends
+on the order the files are visited in) exactly when it is not `Loadable` -/
+theorem load_rejects_iff (applies : Suite → Bool) (mode : Nat) (ss : List Suite) :
+    (∃ e, load applies mode ss = .error e) ↔ ¬ Loadable applies mode ss := by
+  rw [← load_accepts_iff]
+  cases h : load applies mode ss with
+  | error e => simp
+  | ok u => cases u; simp
+
+
+/-- the expectation generator called directly (also on stream types the library never passes on):
+it accepts a case exactly when the expectation is given, or the stream type is one of the five and
+the first request message — if there is one — is of the family that stream type's generator reads -/
+theorem populate_direct_accepts_iff (c : EchoLoad.Case) :
+    populateDirect c = none ↔ (c.explicit = true ∨ (Runnable c ∧ PopulateOk c)) :=
+  populateDirect_none_iff c
+
+/-! non-vacuity: a loadable pair of suites; single departures from it that are rejected -/
+private def lcase : EchoLoad.Case := ⟨"a", 1, false, false, [.unary], false, false, false, []⟩
+private def lsuite : EchoLoad.Suite := ⟨"S", 0, [], [], false, false, false, 0, [lcase, { lcase with name := "b", st := 5, msgs := [.bidi, .bidi] }]⟩
+private def lget : EchoLoad.Suite := ⟨"G", 1, [1], [1], false, false, true, 0, [{ lcase with msgs := [.idempotent], expand := [.fits] }]⟩
+example : loadErr cfgApplies 1 [lsuite, lget] = none := by decide
+example : Loadable cfgApplies 1 [lsuite, lget] := (load_accepts_iff _ _ _).1 (by
+  have : loadErr cfgApplies 1 [lsuite, lget] = none := by decide
+  unfold loadErr at this
+  split at this
+  · next u h => cases u; exact h
+  · cases this)
+example : loadErr cfgApplies 1 [lsuite, { lget with name := "S" }] = some .suiteDuplicate := by decide
+example : loadErr cfgApplies 2 [{ lsuite with mode := 1 }, lget] = some .noCases := by decide
+example : loadErr cfgApplies 1 [{ lsuite with cases := [{ lcase with msgs := [.bidi] }] }] = some .populateNotUnary := by decide
+example : loadErr cfgApplies 1 [{ lsuite with cases := [{ lcase with msgs := [.clientStream, .other] }] }] = none := by decide
+example : loadErr cfgApplies 1 [{ lget with protos := [1, 2] }] = some .misconfigured := by decide
+example : loadErr cfgApplies 1 [{ lget with codecs := [1, 2] }] = some .expandCodecs := by decide
+example : loadErr cfgApplies 1 [{ lsuite with tls := true, cases := [{ lcase with name := "" }] }, lget] = none := by decide
+example : populateDirect { lcase with st := 0 } = some .streamTypeRequired ∧ populateDirect { lcase with st := 9 } = some .streamTypeUnsupported ∧
+    populateDirect { lcase with st := 9, explicit := true } = none ∧ populateDirect { lcase with msgs := [.broken] } = some .populateUnmarshal := by decide
+
+end Load
+
+/-! Non-vacuity of the Connect GET and unimplemented-method theorems. -/
+/-- the transport of a GET call as connect-go makes it (proto codec): `base64`, `connect`,
+`encoding`, `message` in the query string -/
+def getWire (tc : TC) : Wire :=
+  ⟨tc.reqHdrs, id, id, fun h t => mergeHeaders h t,
+   [⟨"base64", ["1"]⟩, ⟨"connect", ["v1"]⟩, ⟨"encoding", [tc.codec.encoding]⟩, ⟨"message", ["CgA"]⟩], "not implemented"⟩
+private def exGet (c : Codec) : TC :=
+  { st := .unary, reqHdrs := [⟨"X-A", ["1"]⟩], reqs := [5], fdFlag := false, sdef := none,
+    get := true, codec := c, method := .idempotent, explicit := none,
+    udef := some ⟨[⟨"x-h", ["v"]⟩], [⟨"x-t", ["w"]⟩], .data "aa"⟩ }
+example : ∀ c, WellFormed (exGet c) = true ∧ WireLaw (exGet c) (getWire (exGet c)) = true ∧ DetailsOpaque (exGet c) = true := by
+  intro c; cases c <;> decide
+example : (expected (exGet .json)).payloads = [⟨"aa", some ⟨[⟨"X-A", ["1"]⟩], [5], [⟨"encoding", ["json"]⟩, ⟨"connect", ["v1"]⟩]⟩⟩] := by decide
+/-- `get_query_sharp`: the server echoes the query string of a proto GET call while the test expects json -/
+example : (getWire (exGet .proto)).query ≠ [] ∧ subsumed (getQuery (exGet .json)) (getWire (exGet .proto)).query = false ∧
+    agree .unary (expected (exGet .json)) (actual (exGet .json) (getWire (exGet .proto)) false) = false := by decide
+private def exUnimpl : TC :=
+  { st := .unary, reqHdrs := [], reqs := [1], fdFlag := false, sdef := none, udef := none,
+    get := false, codec := .proto, method := .unimplemented, explicit := some ⟨[], [], [], some ⟨12, none, []⟩⟩ }
+example : WellFormed exUnimpl = true ∧ populate exUnimpl = some ⟨[], [], [], some ⟨12, none, []⟩⟩ ∧
+    populate { exUnimpl with explicit := none } = none ∧
+    agree .unary ⟨[], [], [], some ⟨12, none, []⟩⟩ (actual exUnimpl (idWire exUnimpl) true) = true := by decide
+example : WellFormed ex1 = true ∧ ex1.explicit = none ∧ populate ex1 = some (expected ex1) := by decide
 
 end ConfModel.Props.C02
